@@ -11,7 +11,7 @@ TIE_EXACT_ONLY = True
 PROP = {
     "id": "C13",
     "quick_n": 400,
-    "thorough_n": 5000,
+    "thorough_n": 4000,
     "rule": "one program = a Bin, SparselyBin, CentrallyBin or IrregularlyBin over field 0 (dyadic and "
             "non-dyadic widths, negative sparse indexes), a fill set over its critical values, the "
             "views for the full range with 4-8 probe values, the views for 3-6 sub-ranges low < high "
